@@ -65,6 +65,7 @@ pub struct MockCtl {
     /// number of client transactions completed (Z(I) after client-tagged work)
     pub client_xacts: AtomicU64,
     pub server_version: Mutex<String>,
+    pub mock_panics: AtomicU64,
 }
 
 impl MockCtl {
@@ -92,6 +93,7 @@ impl MockCtl {
             client_requests: AtomicU64::new(0),
             client_xacts: AtomicU64::new(0),
             server_version: Mutex::new("14.5 (mockpg)".to_string()),
+            mock_panics: AtomicU64::new(0),
         }
     }
     pub fn heal(&self) {
@@ -106,6 +108,20 @@ impl MockCtl {
     }
     pub fn live_sessions(&self) -> usize {
         self.sessions.lock().unwrap().len()
+    }
+    /// Remove registry entries whose thread died (socket clones keep fds open otherwise).
+    pub fn kill_sessions_dead(&self) {
+        let mut g = self.sessions.lock().unwrap();
+        g.retain(|_, s| {
+            if s.dead.load(Ordering::SeqCst) {
+                if let Some(sock) = s.sock.lock().unwrap().take() {
+                    let _ = sock.shutdown(Shutdown::Both);
+                }
+                false
+            } else {
+                true
+            }
+        });
     }
     /// Abruptly close every live session (RST).
     pub fn kill_sessions(&self) {
@@ -126,6 +142,7 @@ pub struct SessInfo {
     pub key: i32,
     pub cancel: AtomicBool,
     pub kill: AtomicBool,
+    pub dead: AtomicBool,
     pub sock: Mutex<Option<TcpStream>>,
     /// (client, qid) of the statement currently executing (sleeping), if any
     pub running: Mutex<Option<(String, String)>>,
@@ -287,8 +304,22 @@ fn acceptor(
                             .name(format!("sess-{}", label))
                             .stack_size(256 * 1024)
                             .spawn(move || {
-                                let mut sess = Session::new(idx, label2, s, ctl2, log2, busy2);
-                                sess.run();
+                                let guard = s.try_clone().ok();
+                                let ctl3 = ctl2.clone();
+                                let log3 = log2.clone();
+                                let r = std::panic::catch_unwind(std::panic::AssertUnwindSafe(move || {
+                                    let mut sess = Session::new(idx, label2, s, ctl2, log2, busy2);
+                                    sess.run();
+                                }));
+                                if r.is_err() {
+                                    // a mock bug must never look like a hung server
+                                    log3.note("MOCK-PANIC: session thread panicked");
+                                    ctl3.mock_panics.fetch_add(1, Ordering::SeqCst);
+                                    if let Some(g) = guard {
+                                        let _ = g.shutdown(Shutdown::Both);
+                                    }
+                                    ctl3.kill_sessions_dead();
+                                }
                             });
                     }
                 }
@@ -405,6 +436,7 @@ impl Session {
             key,
             cancel: AtomicBool::new(false),
             kill: AtomicBool::new(false),
+            dead: AtomicBool::new(false),
             sock: Mutex::new(stream.try_clone().ok()),
             running: Mutex::new(None),
             cur_client: Mutex::new(None),
@@ -956,6 +988,38 @@ impl Session {
             }
         }
 
+        // PostgreSQL: a message whose strings are not terminated inside the body is a protocol
+        // violation ("invalid string in message", 08P01), reported as ERROR
+        let well_formed = match m.typ {
+            b'Q' => proto::cstr_checked(&m.body, 0).is_some(),
+            b'P' => proto::cstr_checked(&m.body, 0)
+                .and_then(|(_, n)| proto::cstr_checked(&m.body, n))
+                .map(|(_, n)| n + 2 <= m.body.len())
+                .unwrap_or(false),
+            b'B' => proto::cstr_checked(&m.body, 0)
+                .and_then(|(_, n)| proto::cstr_checked(&m.body, n))
+                .map(|(_, n)| n + 2 <= m.body.len())
+                .unwrap_or(false),
+            b'D' | b'C' => !m.body.is_empty() && proto::cstr_checked(&m.body, 1).is_some(),
+            b'E' => proto::cstr_checked(&m.body, 0)
+                .map(|(_, n)| n + 4 <= m.body.len())
+                .unwrap_or(false),
+            _ => true,
+        };
+        if !well_formed {
+            if m.typ == b'Q' {
+                self.error("08P01", "invalid string in message", own_client.clone(), own_qid.clone());
+                if self.tx == b'T' {
+                    self.tx = b'E';
+                }
+                return self.finish_simple();
+            }
+            if !self.ignore_till_sync {
+                self.ext_error("08P01", "invalid message format");
+            }
+            return Flow::Continue;
+        }
+
         match m.typ {
             b'X' => Flow::Close("terminate".into()),
             b'Q' => self.simple_query(&own_text.unwrap_or_default(), origin),
@@ -1129,10 +1193,8 @@ impl Session {
             }
             b'S' => {
                 self.ignore_till_sync = false;
-                if self.tx == b'I' || self.guc_tx_snapshot.is_some() && self.tx == b'I' {
-                    self.end_implicit(true);
-                }
                 if self.tx == b'I' {
+                    self.end_implicit(true);
                     self.portals.clear();
                 }
                 self.finish_group()
@@ -1309,6 +1371,7 @@ impl Session {
         self.log.push(Ev::MockReply {
             b: self.b,
             sid: self.sid,
+            first_seq: self.group_first_seq,
             seq: self.seq,
             bytes: Arc::new(
                 if self.log.keep_bytes.load(Ordering::Relaxed) || bytes.len() < 512 {
@@ -1821,4 +1884,13 @@ pub fn returns_rows(stmt: &str) -> bool {
         kw.first().map(|s| s.as_str()),
         Some("SELECT") | Some("WITH") | Some("VALUES") | Some("TABLE")
     )
+}
+
+impl Drop for Session {
+    fn drop(&mut self) {
+        self.info.dead.store(true, Ordering::SeqCst);
+        if let Some(sock) = self.info.sock.lock().unwrap().take() {
+            let _ = sock.shutdown(Shutdown::Both);
+        }
+    }
 }
